@@ -154,3 +154,191 @@ Proof.
       rewrite Forall_forall in Hlt. specialize (Hlt z Hz). unfold sh. destruct (Nat.ltb_spec a z); lia.
     + lia.
 Qed.
+
+(* ------------------------------------------------------------------ *)
+(* fixStackMerge                                                        *)
+
+Lemma merge_loop_nil first ins d n :
+  merge_loop [] first ins d n = (map (fun x => x - d) ins, d, n).
+Proof. destruct ins; reflexivity. Qed.
+
+Lemma merge_loop_cons_nil p ps first d n :
+  merge_loop (p :: ps) first [] d n = ([], d + (if first then length ps else length (p :: ps)), n).
+Proof. reflexivity. Qed.
+
+Lemma merge_loop_cons_cons p ps first x ins d n :
+  merge_loop (p :: ps) first (x :: ins) d n =
+  if p <? x then merge_loop ps false (x :: ins) (if first then d else S d) n
+  else if x <? p then cons3 (x - d) (merge_loop (p :: ps) first ins d n)
+  else
+    let n' := if first then true else match ps with [] => true | _ => n end in
+    if first then cons3 x (merge_loop ps false ins d n')
+    else merge_loop ps false ins (S d) n'.
+Proof. reflexivity. Qed.
+
+(* the loop once the first merged position has been passed (i > 0):
+   m is a lower bound of everything still to come, delta <= m *)
+Lemma merge_loop_tail : forall ps ins delta needs m hi out D nd,
+  inc_from m ps -> inc_from m ins -> delta <= m ->
+  Forall (fun x => x < hi) ps -> Forall (fun x => x < hi) ins ->
+  merge_loop ps false ins delta needs = (out, D, nd) ->
+  D = delta + length ps /\ inc_from (m - delta) out /\ Forall (fun y => y + D < hi) out.
+Proof.
+  induction ps as [|p ps IHp].
+  - intros ins delta needs m hi out D nd _ Hi Hd _ Hhi H. rewrite merge_loop_nil in H. inversion H; subst.
+    splits; [cbn; lia | apply inc_from_map_sub; auto |].
+    apply Forall_forall. intros y Hy. apply in_map_iff in Hy. destruct Hy as (x & <- & Hx).
+    rewrite Forall_forall in Hhi. specialize (Hhi x Hx).
+    eapply inc_from_In in Hx; [|exact Hi]. lia.
+  - induction ins as [|x ins IHi]; intros delta needs m hi out D nd Hp Hi Hd Hph Hih H.
+    + rewrite merge_loop_cons_nil in H. inversion H; subst. splits; [reflexivity | exact I | constructor].
+    + rewrite merge_loop_cons_cons in H.
+      destruct Hp as [Hp1 Hp2]. destruct Hi as [Hi1 Hi2].
+      inversion Hph as [|? ? Hph1 Hph2]; subst. inversion Hih as [|? ? Hih1 Hih2]; subst.
+      destruct (Nat.ltb_spec p x) as [Hpx|Hpx].
+      * (* merged glyph before the next input position *)
+        eapply (IHp (x :: ins) (S delta) needs (S p) hi) in H;
+          [|exact Hp2|cbn [inc_from]; split; [lia|exact Hi2]|lia|exact Hph2|exact Hih].
+        destruct H as (-> & Ho & Hb). splits; [cbn [length]; lia | |exact Hb].
+        eapply inc_from_weaken; [|exact Ho]. lia.
+      * destruct (Nat.ltb_spec x p) as [Hxp|Hxp].
+        -- (* input position not merged *)
+           destruct (merge_loop (p :: ps) false ins delta needs) as [[out1 D1] nd1] eqn:E.
+           cbn [cons3] in H. inversion H; subst.
+           eapply (IHi delta needs (S x) hi) in E;
+             [|cbn [inc_from]; split; [lia|exact Hp2]|exact Hi2|lia|exact Hph|exact Hih2].
+           destruct E as (-> & Ho & Hb). splits; [reflexivity| |].
+           ++ cbn [inc_from]. split; [lia|]. eapply inc_from_weaken; [|exact Ho]. lia.
+           ++ constructor; [|exact Hb].
+              assert (HL : length (p :: ps) + S x <= hi).
+              { apply inc_from_length'; [cbn [inc_from]; split; [lia|exact Hp2] | exact Hph | lia]. }
+              cbn [length] in *. lia.
+        -- (* input position merged: deleted *)
+           assert (p = x) by lia. subst p. cbn zeta in H.
+           eapply (IHp ins (S delta) _ (S x) hi) in H; [|exact Hp2|exact Hi2|lia|exact Hph2|exact Hih2].
+           destruct H as (-> & Ho & Hb). splits; [cbn [length]; lia | |exact Hb].
+           eapply inc_from_weaken; [|exact Ho]. lia.
+Qed.
+
+(* the whole loop, started at i = 0 with pos = a :: mnew *)
+Lemma merge_loop_head a mnew hi : inc_from (S a) mnew -> Forall (fun x => x < hi) mnew -> a < hi ->
+  forall ins needs out D nd,
+  inc_from 0 ins -> Forall (fun x => x < hi) ins ->
+  merge_loop (a :: mnew) true ins 0 needs = (out, D, nd) ->
+  D = length mnew /\ inc_from 0 out /\ Forall (fun y => y + D < hi) out.
+Proof.
+  intros Hm Hmh Ha.
+  assert (Hcount : length mnew + S a <= hi) by (apply inc_from_length'; auto; lia).
+  assert (Gen : forall ins lo needs out D nd, lo <= S a ->
+    inc_from lo ins -> Forall (fun x => x < hi) ins ->
+    merge_loop (a :: mnew) true ins 0 needs = (out, D, nd) ->
+    D = length mnew /\ inc_from lo out /\ Forall (fun y => y + D < hi) out).
+  { induction ins as [|x ins IH]; intros lo needs out D nd Hlo Hi Hih H.
+    - rewrite merge_loop_cons_nil in H. inversion H; subst. splits; [reflexivity|exact I|constructor].
+    - rewrite merge_loop_cons_cons in H. destruct Hi as [Hi1 Hi2]. inversion Hih as [|? ? Hih1 Hih2]; subst.
+      destruct (Nat.ltb_spec a x) as [Hax|Hax].
+      + eapply (merge_loop_tail mnew (x :: ins) 0 needs (S a) hi) in H;
+          [|exact Hm|cbn [inc_from]; split; [lia|exact Hi2]|lia|exact Hmh|exact Hih].
+        destruct H as (-> & Ho & Hb). splits; [reflexivity| |exact Hb].
+        rewrite Nat.sub_0_r in Ho. eapply inc_from_weaken; [|exact Ho]. exact Hlo.
+      + destruct (Nat.ltb_spec x a) as [Hxa|Hxa].
+        * destruct (merge_loop (a :: mnew) true ins 0 needs) as [[out1 D1] nd1] eqn:E.
+          cbn [cons3] in H. inversion H; subst.
+          eapply (IH (S x)) in E; [|lia|exact Hi2|exact Hih2].
+          destruct E as (-> & Ho & Hb). splits; [reflexivity| |].
+          -- rewrite Nat.sub_0_r. cbn [inc_from]. split; [lia|exact Ho].
+          -- constructor; [lia|exact Hb].
+        * assert (x = a) by lia. subst x. cbn zeta in H.
+          destruct (merge_loop mnew false ins 0 true) as [[out1 D1] nd1] eqn:E.
+          cbn [cons3] in H. inversion H; subst.
+          eapply (merge_loop_tail mnew ins 0 true (S a) hi) in E; [|exact Hm|exact Hi2|lia|exact Hmh|exact Hih2].
+          destruct E as (-> & Ho & Hb). splits; [reflexivity| |].
+          -- cbn [inc_from]. split; [lia|]. rewrite Nat.sub_0_r in Ho. exact Ho.
+          -- constructor; [cbn [length]; lia|exact Hb]. }
+  intros ins needs out D nd Hi Hih H. eapply Gen; eauto. lia.
+Qed.
+
+(* slices.BinarySearch followed by Insert / Delete on an ascending list *)
+Lemma lb_insert : forall l lo t idx,
+  inc_from lo l -> lo <= t -> lower_bound l t = (idx, false) ->
+  inc_from lo (firstn idx l ++ t :: skipn idx l) /\
+  (forall P : nat -> Prop, Forall P l -> P t -> Forall P (firstn idx l ++ t :: skipn idx l)).
+Proof.
+  induction l as [|x r IH]; intros lo t idx Hl Ht H; cbn [lower_bound] in H.
+  - inversion H; subst. cbn. splits; auto.
+  - destruct Hl as [Hl1 Hl2]. destruct (Nat.leb_spec t x) as [Htx|Htx].
+    + inversion H; subst. apply Nat.eqb_neq in H2. cbn [firstn skipn app inc_from].
+      split; [splits; [lia|lia|exact Hl2]|]. intros P HP Hp. constructor; auto.
+    + destruct (lower_bound r t) as [i f] eqn:E. inversion H; subst.
+      destruct (IH (S x) t i Hl2 ltac:(lia) E) as [I1 I2].
+      cbn [firstn skipn app inc_from]. split; [split; [exact Hl1|exact I1]|].
+      intros P HP Hp. inversion HP; subst. constructor; auto.
+Qed.
+
+Lemma delete_inc : forall l lo idx, inc_from lo l -> inc_from lo (firstn idx l ++ skipn (S idx) l).
+Proof.
+  induction l as [|x r IH]; intros lo idx Hl; [destruct idx; exact I|].
+  destruct Hl as [Hl1 Hl2]. destruct idx as [|idx]; cbn [firstn skipn app].
+  - eapply inc_from_weaken; [|exact Hl2]. lia.
+  - cbn [inc_from]. split; [exact Hl1|]. apply IH. exact Hl2.
+Qed.
+
+Lemma delete_Forall {A} (P : A -> Prop) l idx : Forall P l -> Forall P (firstn idx l ++ skipn (S idx) l).
+Proof.
+  intros H. apply Forall_app. split.
+  - rewrite <- (firstn_skipn idx l) in H. apply Forall_app in H. apply H.
+  - rewrite <- (firstn_skipn (S idx) l) in H. apply Forall_app in H. apply H.
+Qed.
+
+(* one frame under fixStackMerge: the merged positions are a :: mnew, all
+   below lim <= EndPos *)
+Lemma fix_merge_frame_ok n a mnew lim f :
+  frame_ok n f -> inc_from (S a) mnew -> Forall (fun x => x < lim) mnew -> a < lim -> lim <= f_end f ->
+  frame_ok (n - length mnew) (fix_merge_frame (a :: mnew) f) /\
+  f_end (fix_merge_frame (a :: mnew) f) = f_end f - length mnew.
+Proof.
+  intros (Hs & Hlt & He) Hm Hml Ha Hlim. unfold fix_merge_frame.
+  destruct (f_end f <=? a) eqn:El; [apply Nat.leb_le in El; lia|]. clear El.
+  destruct (merge_loop (a :: mnew) true (f_pos f) 0 false) as [[ins delta] needs] eqn:E.
+  eapply (merge_loop_head a mnew (f_end f)) in E; [|exact Hm| |lia|exact Hs|exact Hlt].
+  2:{ eapply Forall_impl; [|exact Hml]. cbn. intros; lia. }
+  destruct E as (-> & Hi & Hb).
+  assert (Hcount : length mnew + S a <= lim) by (apply inc_from_length'; auto; lia).
+  destruct (lower_bound ins a) as [idx has] eqn:Elb.
+  assert (Hb' : Forall (fun p => p < f_end f - length mnew) ins).
+  { eapply Forall_impl; [|exact Hb]. cbn. intros; lia. }
+  unfold frame_ok. cbn [f_pos f_end f_acts]. split; [|reflexivity].
+  destruct needs, has; cbn [andb negb].
+  - splits; [exact Hi|exact Hb'|lia].
+  - destruct (lb_insert ins 0 a idx Hi ltac:(lia) Elb) as [I1 I2].
+    splits; [exact I1 | apply I2; [exact Hb'|lia] | lia].
+  - splits; [apply delete_inc; exact Hi | apply delete_Forall; exact Hb' | lia].
+  - splits; [exact Hi|exact Hb'|lia].
+Qed.
+
+(* ------------------------------------------------------------------ *)
+(* the whole stack                                                      *)
+
+Lemma stack_ok_insert n a d : forall k b, a < b ->
+  stack_ok n b k -> stack_ok (n + d) (b + d) (fix_insert a (S d) k).
+Proof.
+  induction k as [|f rest IH]; intros b Ha H; cbn [fix_insert map stack_ok]; [exact I|].
+  destruct H as (Hf & Hb & Hr).
+  destruct (fix_insert_frame_ok n a d f Hf ltac:(lia)) as [F1 F2].
+  splits; [exact F1 | lia |]. rewrite F2. apply (IH (f_end f)); [lia|]. exact Hr.
+Qed.
+
+Lemma stack_ok_merge n a mnew : inc_from (S a) mnew ->
+  forall k b, Forall (fun x => x < b) mnew -> a < b -> stack_ok n b k ->
+  stack_ok (n - length mnew) (b - length mnew) (fix_merge (a :: mnew) k).
+Proof.
+  intros Hm. induction k as [|f rest IH]; intros b Hml Ha H; cbn [fix_merge map stack_ok]; [exact I|].
+  destruct H as (Hf & Hb & Hr).
+  destruct (fix_merge_frame_ok n a mnew b f Hf Hm Hml Ha Hb) as [F1 F2].
+  splits; [exact F1 | lia |]. fold (fix_merge (a :: mnew) rest). rewrite F2.
+  apply (IH (f_end f)); [|lia|exact Hr].
+  eapply Forall_impl; [|exact Hml]. cbn. intros; lia.
+Qed.
+
+Lemma stack_ok_length_eq n n' lim k : n = n' -> stack_ok n lim k -> stack_ok n' lim k.
+Proof. intros ->. auto. Qed.
